@@ -470,6 +470,16 @@ theorem header_roundtrip (s : Seg) (hsize : headerSize ≤ s.size) (h64 : s.size
   have hs : headerSize + (s.size - headerSize) = s.size := by omega
   rw [hs]
 
+/-- **attach_iff_same_size**: a second attachment validates exactly when it maps the segment with
+the size recorded in the header (so a peer can never run the allocator over a different data area). -/
+theorem attach_iff_same_size (s : Seg) (mapped : Nat) (hsize : headerSize ≤ s.size) (h64 : s.size < 2 ^ 64)
+    (hcount : s.table.length < 2 ^ 32) (hent : ∀ e ∈ s.table, e.1 < 2 ^ 64 ∧ e.2 < 2 ^ 64) :
+    validateAttach (encodeHeader s) mapped = true ↔ mapped = s.size := by
+  unfold validateAttach
+  rw [header_roundtrip s hsize h64 hcount hent]
+  simp only [decide_eq_true_eq]
+  exact eq_comm
+
 /-- The fixed part of the documented layout: "VGIS", version 1 LE, data_size u64 LE at 8,
 count u32 LE at 16, entries from offset 24, 16 bytes each. -/
 theorem header_layout (s : Seg) :
